@@ -544,6 +544,23 @@ def oracle_resample(case, R):
         return
     r = np.asarray(got[0])
     data = np.asarray(data, float)
+    # sampled counts: the same whole numbers in an integer array (int64 / int16 / a list of ints) give what the
+    # float array gives ("data : nd array_like")
+    if case.get("counts"):
+        cnt = np.round(data * 7.0 + np.arange(data.shape[axis]).reshape([-1 if k == axis % data.ndim else 1
+                                                                           for k in range(data.ndim)]) % 3)
+        cnt = np.clip(cnt, -30000, 30000)
+        kw2 = dict(axis=axis, pts=pts)
+        if beta != 14:
+            kw2["beta"] = beta
+        rf_ = np.asarray(dsp.resample(cnt.copy(), p, q, **kw2))
+        for dt_ in (np.int64, np.int16):
+            ri_ = np.asarray(dsp.resample(cnt.astype(dt_), p, q, **kw2))
+            ok_ = ri_.shape == rf_.shape and np.allclose(ri_, rf_, rtol=1e-12, atol=1e-9)
+            R.check(ok_, "resample_integer_array_differs_from_float_array",
+                    f"{np.dtype(dt_).name}: n={n} p={p} q={q} max diff "
+                    f"{np.abs(ri_ - rf_).max() if ri_.shape == rf_.shape else 'shape'}")
+        R.label("counts")
     R.label(f"kind:{kind}", f"layout:{layout}",
             "ratio:" + ("1" if pr == qr else "int_up" if qr == 1 else "int_down" if pr == 1
                         else "frac_up" if pr > qr else "frac_down"),
@@ -645,7 +662,8 @@ def resamples(draw):
             "t": draw(st.one_of(st.none(), st.tuples(
                 st.sampled_from([0.0, 100.0, -3.5]), st.sampled_from([1.0, 0.01, 2.5e-4])))),
             "getfir": draw(st.booleans()),
-            "dpack": draw(st.sampled_from(["same", "same", "int", "fortran", "strided", "readonly"]))}
+            "dpack": draw(st.sampled_from(["same", "same", "int", "fortran", "strided", "readonly"])),
+            "counts": draw(st.integers(0, 2)) == 0}
 
 
 # ====================================================================== fixtime
